@@ -1291,3 +1291,153 @@ theorem C03.lincomb_small_value {K : Type} [CommRing K] (isz : K → Bool)
   refine ⟨h1 a b x1 x2, ?_⟩
   simp only [multScalarLeaf, h1]
   funext i; ring
+
+/-! ### Round 4: `BroadcastOperator`, `ReductionOperator`, `DiagonalOperator` -/
+
+/-- The block lists that the constructors of `BroadcastOperator` / `DiagonalOperator`
+(`rowsFrom`) and `ReductionOperator` (`colsFrom`) build from well-formed non-functional
+operands satisfy the hypotheses `EntriesOK` of the `ProductSpaceOperator` theorems. -/
+theorem C03.wrapper_entries_ok {K : Type} (ops : List (Op K))
+    (hops : ∀ op ∈ ops, AllOKg False op ∧ op.fn = false) (ip : Bool) :
+    EntriesOK ops.length 1 ip (rowsFrom (fun _ => 0) 0 ops) ∧
+    EntriesOK ops.length ops.length ip (rowsFrom id 0 ops) ∧
+    EntriesOK 1 ops.length ip (colsFrom 0 ops) := by
+  refine ⟨fun e he => ?_, fun e he => ?_, fun e he => ?_⟩
+  · obtain ⟨_, h2, h3, h4⟩ := rowsFrom_rows (fun _ => 0) ops 0 e he
+    exact ⟨(hops _ h4).1, fun _ => (hops _ h4).2, by omega, by omega⟩
+  · obtain ⟨_, h2, h3, h4⟩ := rowsFrom_rows id ops 0 e he
+    exact ⟨(hops _ h4).1, fun _ => (hops _ h4).2, by omega, by simp only [id] at h3; omega⟩
+  · obtain ⟨h1, _, h3, h4⟩ := colsFrom_cols ops 0 e he
+    exact ⟨(hops _ h4).1, fun _ => (hops _ h4).2, by omega, by omega⟩
+
+/-- `BroadcastOperator(op_0, …, op_{m-1})`, its own `_call` included (`broadcastO/I`: the block
+list built by the constructor, `x` wrapped into a 1-tuple WITHOUT copy): for all well-formed
+non-functional operand trees, every store, every `x` and every output tuple `y` of distinct
+objects other than `x`, whatever they hold: `op(x)` returns a tuple of NEW objects, component
+`i` holding `0 + ⟦op_i⟧(x)`, and writes no existing object (although the wrapped tuple shares
+`x`); `op(x, out=y)` leaves exactly these values in the components of `y` and writes nothing
+else, in particular not `x`. -/
+theorem C03.broadcast_protocol {K : Type} [Add K] [Mul K] [OfNat K 0] (hK : CommArith K)
+    (jk : Nat → Vec K) (ops : List (Op K))
+    (hops : ∀ op ∈ ops, AllOKg False op ∧ op.fn = false) (s : St K) (xb : Nat)
+    (hx : xb < s.next) (y : Nat → Nat) (hy : ∀ i : Nat, i < ops.length → y i < s.next)
+    (hyinj : ∀ i i' : Nat, i < ops.length → i' < ops.length → y i = y i' → i = i')
+    (hdis : ∀ i : Nat, i < ops.length → y i ≠ xb) :
+    (∃ s', broadcastO jk ops xb s = .ok [] s' ∧
+      (∀ (i : Nat) (op : Op K), ops[i]? = some op →
+        s'.mem (s.next + i) = fun k => 0 + den op (s.mem xb) k) ∧
+      ∀ b : Nat, b < s.next → s'.mem b = s.mem b) ∧
+    (∃ done s', broadcastI jk ops xb y s = .ok done s' ∧
+      (∀ (i : Nat) (op : Op K), ops[i]? = some op →
+        s'.mem (y i) = fun k => 0 + den op (s.mem xb) k) ∧
+      ∀ b : Nat, b < s.next → (∀ i : Nat, i < ops.length → b ≠ y i) → s'.mem b = s.mem b) := by
+  have hlt : ∀ (i : Nat) (op : Op K), ops[i]? = some op → i < ops.length := fun i op h => by
+    have := List.getElem?_eq_some_iff.mp h; exact this.1
+  constructor
+  · obtain ⟨s', es, vs, fs⟩ := C03.pso_out_of_place jk ops.length 1 (fun _ => xb) _
+      (C03.wrapper_entries_ok ops hops false).1 s (fun _ _ => hx)
+    refine ⟨s', es, fun i op hop => ?_, fs⟩
+    rw [vs i (hlt i op hop)]
+    exact rowDen_rowsFrom _ _ ops 0 i op (by omega) (by simpa using hop) _
+  · obtain ⟨done, s', es, vs, fs⟩ := C03.pso_in_place hK jk ops.length 1 (fun _ => xb) y _
+      (C03.wrapper_entries_ok ops hops true).1 s (fun _ _ => hx) hy hyinj (fun i _ hi _ => hdis i hi)
+    refine ⟨done, s', es, fun i op hop => ?_, fs⟩
+    rw [vs i (hlt i op hop)]
+    exact rowDen_rowsFrom _ _ ops 0 i op (by omega) (by simpa using hop) _
+
+/-- `DiagonalOperator(op_0, …, op_{m-1})` (a `ProductSpaceOperator` with the blocks `(i, i, op_i)`
+built by its constructor): component `i` of the result is `0 + ⟦op_i⟧(x_i)`, in NEW objects
+out-of-place and in the distinct objects `y` (disjoint from `x`) in-place; nothing else is
+written. -/
+theorem C03.diagonal_protocol {K : Type} [Add K] [Mul K] [OfNat K 0] (hK : CommArith K)
+    (jk : Nat → Vec K) (ops : List (Op K))
+    (hops : ∀ op ∈ ops, AllOKg False op ∧ op.fn = false) (s : St K) (x y : Nat → Nat)
+    (hx : ∀ j : Nat, j < ops.length → x j < s.next)
+    (hy : ∀ i : Nat, i < ops.length → y i < s.next)
+    (hyinj : ∀ i i' : Nat, i < ops.length → i' < ops.length → y i = y i' → i = i')
+    (hdis : ∀ i j : Nat, i < ops.length → j < ops.length → y i ≠ x j) :
+    (∃ s', diagonalO jk ops x s = .ok [] s' ∧
+      (∀ (i : Nat) (op : Op K), ops[i]? = some op →
+        s'.mem (s.next + i) = fun k => 0 + den op (s.mem (x i)) k) ∧
+      ∀ b : Nat, b < s.next → s'.mem b = s.mem b) ∧
+    (∃ done s', diagonalI jk ops x y s = .ok done s' ∧
+      (∀ (i : Nat) (op : Op K), ops[i]? = some op →
+        s'.mem (y i) = fun k => 0 + den op (s.mem (x i)) k) ∧
+      ∀ b : Nat, b < s.next → (∀ i : Nat, i < ops.length → b ≠ y i) → s'.mem b = s.mem b) := by
+  have hlt : ∀ (i : Nat) (op : Op K), ops[i]? = some op → i < ops.length := fun i op h => by
+    have := List.getElem?_eq_some_iff.mp h; exact this.1
+  constructor
+  · obtain ⟨s', es, vs, fs⟩ := C03.pso_out_of_place jk ops.length ops.length x _
+      (C03.wrapper_entries_ok ops hops false).2.1 s hx
+    refine ⟨s', es, fun i op hop => ?_, fs⟩
+    rw [vs i (hlt i op hop)]
+    exact rowDen_rowsFrom _ id ops 0 i op (by omega) (by simpa using hop) _
+  · obtain ⟨done, s', es, vs, fs⟩ := C03.pso_in_place hK jk ops.length ops.length x y _
+      (C03.wrapper_entries_ok ops hops true).2.1 s hx hy hyinj hdis
+    refine ⟨done, s', es, fun i op hop => ?_, fs⟩
+    rw [vs i (hlt i op hop)]
+    exact rowDen_rowsFrom _ id ops 0 i op (by omega) (by simpa using hop) _
+
+/-- `ReductionOperator(op_0, …, op_{n-1})`, its own `_call` included (`reductionO/I`):
+`op(x)` returns component 0 of the new result tuple — a NEW object — holding
+`((0 + ⟦op_0⟧(x_0)) + ⟦op_1⟧(x_1)) + …` (`redSum`) and writes no existing object;
+`op(x, out=y)` wraps `y` into a 1-tuple WITHOUT copy, so the returned `pspace_result[0]` is the
+very object `y`, which then holds the same value whatever it held before; nothing else — in
+particular no component of `x` — is written. -/
+theorem C03.reduction_protocol {K : Type} [Add K] [Mul K] [OfNat K 0] (hK : CommArith K)
+    (jk : Nat → Vec K) (ops : List (Op K))
+    (hops : ∀ op ∈ ops, AllOKg False op ∧ op.fn = false) (s : St K) (x : Nat → Nat) (yb : Nat)
+    (hx : ∀ j : Nat, j < ops.length → x j < s.next) (hy : yb < s.next)
+    (hdis : ∀ j : Nat, j < ops.length → yb ≠ x j) :
+    (∃ s', reductionO jk ops x s = .ok s.next s' ∧
+      s'.mem s.next = redSum (fun j => s.mem (x j)) 0 ops (fun _ => 0) ∧
+      ∀ b : Nat, b < s.next → s'.mem b = s.mem b) ∧
+    (∃ s', reductionI jk ops x yb s = .ok yb s' ∧
+      s'.mem yb = redSum (fun j => s.mem (x j)) 0 ops (fun _ => 0) ∧
+      ∀ b : Nat, b < s.next → b ≠ yb → s'.mem b = s.mem b) := by
+  constructor
+  · obtain ⟨s', es, vs, fs⟩ := C03.pso_out_of_place jk 1 ops.length x _
+      (C03.wrapper_entries_ok ops hops false).2.2 s hx
+    refine ⟨s', by simp only [reductionO, es], ?_, fs⟩
+    have := vs 0 (by omega)
+    rw [Nat.add_zero] at this
+    rw [this]
+    exact rowDen_colsFrom _ ops 0 _
+  · obtain ⟨done, s', es, vs, fs⟩ := C03.pso_in_place hK jk 1 ops.length x (fun _ => yb) _
+      (C03.wrapper_entries_ok ops hops true).2.2 s hx (fun _ _ => hy) (fun i i' hi hi' _ => by omega)
+      (fun _ j _ hj => hdis j hj)
+    refine ⟨s', by simp only [reductionI, es], ?_, fun b hb hne => fs b hb (fun _ _ => hne)⟩
+    rw [vs 0 (by omega)]
+    exact rowDen_colsFrom _ ops 0 _
+
+/-- Non-vacuity: the reduction `x ↦ 2·x₀ + 3·x₁` over ℤ satisfies the hypotheses; evaluated in
+place on x = ((5,…),(7,…)) into `y` (holding 1000) it returns `y` holding 0 + 10 + 21 = 31; the
+broadcast `x ↦ (2x, 3x)` on 5 puts 10 and 15 into two new objects. -/
+example : let ops : List (Op Int) := [.leaf (scalingLeaf 2), .leaf (scalingLeaf 3)]
+    let s : St Int := ⟨fun b _ => if b = 0 then 5 else if b = 1 then 7 else 1000, 3⟩
+    (∃ s', reductionI (fun _ _ => 99) ops (fun j => j) 2 s = .ok 2 s' ∧ s'.mem 2 0 = 31) ∧
+    (∃ s', broadcastO (fun _ _ => 99) ops 0 s = .ok [] s' ∧ s'.mem 3 0 = 10 ∧ s'.mem 4 0 = 15) := by
+  intro ops s
+  have hK := C03.comm_arith_of_comm_ring Int
+  have hops : ∀ op ∈ ops, AllOKg False op ∧ op.fn = false := by
+    intro op hop
+    simp only [ops, List.mem_cons, List.not_mem_nil, or_false] at hop
+    rcases hop with rfl | rfl
+    · exact ⟨C03.allOK_weaken False _ (C03.scale_leaf_ok 2), rfl⟩
+    · exact ⟨C03.allOK_weaken False _ (C03.scale_leaf_ok 3), rfl⟩
+  constructor
+  · obtain ⟨s', es, vs, _⟩ := (C03.reduction_protocol hK (fun _ _ => 99) ops hops s (fun j => j) 2
+      (fun j hj => by simp [ops] at hj; simp [s]; omega) (by simp [s])
+      (fun j hj => by simp [ops] at hj; omega)).2
+    refine ⟨s', es, ?_⟩
+    rw [vs]; simp [ops, s, redSum, den, scalingLeaf]
+  · obtain ⟨s', es, vs, _⟩ := (C03.broadcast_protocol hK (fun _ _ => 99) ops hops s 0 (by simp [s])
+      (fun i => 1 + i) (fun i hi => by simp [ops] at hi; simp [s]; omega)
+      (fun i i' _ _ h => by omega) (fun i _ => by omega)).1
+    refine ⟨s', es, ?_, ?_⟩
+    · have := vs 0 (.leaf (scalingLeaf 2)) rfl
+      simp only [s, Nat.add_zero] at this
+      rw [this]; simp [den, scalingLeaf]
+    · have := vs 1 (.leaf (scalingLeaf 3)) rfl
+      simp only [s] at this
+      rw [this]; simp [den, scalingLeaf]
